@@ -30,7 +30,7 @@ for p, more in {
     "C03": ["b64feat"],
     "C06": ["b64feat"],
     "C07": ["miri"],
-    "C12": ["asan", "miri"],
+    "C12": ["b64feat", "asan", "miri"],
     "C14": ["b64feat", "plain"],
     "C15": ["b64feat", "dev0", "asan", "miri"],
     "C16": ["miri"],
@@ -42,6 +42,7 @@ QUICK_EXTRA = {p: ["release"] for p in ALL}
 QUICK_EXTRA["C02"] += ["b64feat"]
 QUICK_EXTRA["C03"] += ["b64feat"]
 QUICK_EXTRA["C06"] += ["b64feat"]
+QUICK_EXTRA["C12"] += ["b64feat"]
 QUICK_EXTRA["C14"] += ["b64feat", "plain"]
 QUICK_EXTRA["C15"] += ["b64feat", "dev0"]
 
